@@ -305,6 +305,13 @@ theorem L1J_applied_le {c0 : RQJ.Config} {s : SysJ N} (h : ReachJ c0 s) (i : Fin
   have := (cinv_reach cr).app_le i
   rwa [rc.applied, rc.r.commit] at this
 
+/-- the commit index of a reachable L1J node lies inside its log -/
+theorem L1J_commit_le {c0 : RQJ.Config} {s : SysJ N} (h : ReachJ c0 s) (i : Fin N) : (s.l1.nodes i).commit ≤ (s.l1.nodes i).log.length := by
+  obtain ⟨cs, cr, rc⟩ := reachJ_related h
+  obtain ⟨_, _, _, h3, _⟩ := RSQ.reach_inv (creach_base cr)
+  have := (h3.n1 i).1
+  rwa [rc.r.commit, rc.r.log] at this
+
 #print axioms L1J_election_safety
 #print axioms L1J_leader_completeness
 #print axioms simJ
